@@ -176,7 +176,8 @@ def fam_suppress(p: Dict[str, Any], problems: List[str], w: World) -> Tuple[str,
         contained = rel != "superset"
 
         def start_first() -> None:
-            box["b1"] = AsyncServiceBrowser(zc, TA, listener=Lst(), question_type=DNSQuestionType.QM)
+            box["b1"] = AsyncServiceBrowser(zc, TA, listener=Lst(), question_type=DNSQuestionType.QU if p["first"] == "own-qu"
+                                            else DNSQuestionType.QM)
 
         def after_first() -> None:
             box["b1"]._async_cancel()
@@ -198,9 +199,14 @@ def fam_suppress(p: Dict[str, Any], problems: List[str], w: World) -> Tuple[str,
     sent = [Decoded(s) for s in w.net.trace if s.host == host.name and abs(s.t_us / 1000 - t2) < 0.01]
     asked = [d for d in sent if not d.is_response and any(q[1] == TA and q[2] == 12 for q in d.msg.questions)]
     if not heard and gap == 0:
-        asked = asked[1:]  # the first asker's own query goes out in the same instant
+        # the first asker's own query goes out in the same instant: drop one query of its kind (QU or QM)
+        first_qu = p["first"] == "own-qu"
+        for k, d in enumerate(asked):
+            if any(bool(q[3] & 0x8000) == first_qu for q in d.msg.questions):
+                asked = asked[:k] + asked[k + 1:]
+                break
     qu_second = p["second"] in ("QU", None)
-    suppressed_expected = (not qu_second) and gap <= 999 and contained
+    suppressed_expected = (not qu_second) and gap <= 999 and contained and p["first"] != "own-qu"  # only QM asks count
     if suppressed_expected and asked:
         problems.append(f"suppression: the QM question was asked again {gap} ms after it was "
                         f"{'heard' if heard else 'asked'} with known answers it fully knows")
@@ -333,10 +339,10 @@ def points(tier: str) -> List[Dict[str, Any]]:
                     pts.append({"fam": "browser", "n": n, "classes": cs, "dq": dq, "forced": forced})
     if tier == "quick":
         pts.append({"fam": "browser", "n": 300, "classes": class_sets[1], "dq": -1, "forced": None})
-    for first in ("own", "heard"):
+    for first in ("own", "heard", "own-qu"):
         for gap in (0, 1, 500, 998, 999, 1000, 1001, 5000):
             for rel in ("empty", "subset", "equal", "superset"):
-                if first == "own" and (rel == "empty" or (gap == 0 and rel != "equal")):
+                if first in ("own", "own-qu") and (rel == "empty" or (gap == 0 and rel != "equal")):
                     continue  # an own browser lists what the cache holds; the cache cannot change within one instant
                 if first == "heard" and gap == 0:
                     continue  # hearing and asking in the very same instant: either order is legitimate
